@@ -2,6 +2,8 @@
   C07 — scaling stays within bounds and never removes a shard still in use.
 -/
 import Kvass.Pins.Coord
+import Kvass.Pins.K8s
+import Kvass.Pins.Store
 import Kvass.Proofs.CoordScale
 import Kvass.Proofs.CoordNeed
 import Kvass.Proofs.CoordDown
